@@ -294,6 +294,7 @@ EXPECT = {
   "c07_consume_partial"
  ],
  "C08": [
+  "c08_block_larger_than_64k_of_pcm",
   "c08_only_partial_frame_after_whole_blocks",
   "c08_trailing_partial_frame",
   "c08_two_way_sweep",
